@@ -66,6 +66,13 @@ def gen_c01(rnd, n, thorough=False):
                 lines.append(_many('f', a, now, pts))
                 written += [t for t, _ in pts]
                 tags['ops']['many'] = tags['ops'].get('many', 0) + 1
+            elif r < 0.89 and a == k - 1:
+                # a write into the current interval, then one exactly as old as the file's retention (one lap
+                # behind, the same slot): it is refused and the slot keeps the live value
+                lines.append("upd f %d %d %016x %d" % (a, now, value(rnd, False), now))
+                lines.append("upd f %d %d %016x %d" % (rnd.pick([a, -1]), now - R, value(rnd, False), now))
+                written.append(now)
+                tags['ops']['lap_boundary'] = tags['ops'].get('lap_boundary', 0) + 1
             elif r < 0.93:
                 lines.append("sync f")
                 lines.append("open f")
